@@ -1,8 +1,8 @@
 package core
 
 import (
-	"go/constant"
 	"fmt"
+	"go/constant"
 	"go/types"
 	"sort"
 	"strings"
